@@ -364,6 +364,10 @@ impl<'a> Emit<'a> {
         }
     }
 
+    pub fn visit_term(&mut self, id: u32) {
+        self.visit_node(id)
+    }
+
     pub fn visit_cond(&mut self, c: u32) {
         match self.arena.conds[c as usize].clone() {
             CNode::True | CNode::False => {}
